@@ -693,7 +693,11 @@ class WaveShareNmea2000Gateway(AsyncIOClient):
             start = self._buffer.find(b"\xaa\x55")
 
             if start == -1:
-                # If start marker not found, wait for more data
+                # If start marker not found, wait for more data. Everything in the buffer is noise, except
+                # that the last byte may be the first half of a marker split across two reads: keep only that
+                # byte, otherwise the buffer grows without bound on a noisy line.
+                if len(self._buffer) > 1:
+                    self._buffer = self._buffer[-1:]
                 break
             if start + 20 > len(self._buffer):
                 # Not enough data for a full packet yet
